@@ -146,8 +146,9 @@ func checkMid(c *pbt.Case, r *pbt.R, sim string, e0 error, recv []byte, mid erro
 		fam := strings.TrimSuffix(w.d.ErrorTypeMark.FamilyName, wire.UnkSuffix)
 		if unknown[fam] {
 			sd := errors.GetSafeDetails(n.Err)
+			// (exactly what was received: the family as it stands on the wire)
 			if sd.OriginalTypeName != w.d.OriginalTypeName ||
-				strings.TrimSuffix(sd.ErrorTypeMark.FamilyName, wire.UnkSuffix) != fam ||
+				sd.ErrorTypeMark.FamilyName != w.d.ErrorTypeMark.FamilyName ||
 				sd.ErrorTypeMark.Extension != w.d.ErrorTypeMark.Extension ||
 				strings.Join(sd.SafeDetails, "\x00") != strings.Join(w.d.ReportablePayload, "\x00") {
 				r.Failf("opaque layer does not keep the origin's type name, mark or safe details",
